@@ -4,6 +4,7 @@ package main
 // copy of the repository and run the property's check against it.
 
 import (
+	"sync"
 	"bufio"
 	"encoding/json"
 	"flag"
@@ -54,6 +55,7 @@ func cmdSelftest(args []string) int {
 	verif := fs.String("verif", "/verif", "")
 	only := fs.String("only", "", "substring filter on patch names / property")
 	dirs := fs.String("dirs", "selftest/mutants,selftest/neutral", "")
+	jobs := fs.Int("j", 1, "cases run concurrently")
 	fs.Parse(args)
 	var files []string
 	for _, d := range strings.Split(*dirs, ",") {
@@ -72,17 +74,32 @@ func cmdSelftest(args []string) int {
 	}
 	var results []result
 	bad := 0
+	var mu sync.Mutex
+	var wg sync.WaitGroup
+	sem := make(chan struct{}, *jobs)
+	var run0 func(name, patch, prop, expect string)
 	run := func(name, patch, prop, expect string) {
 		if *only != "" && !strings.Contains(name, *only) && prop != *only {
 			return
 		}
+		wg.Add(1)
+		sem <- struct{}{}
+		go func() {
+			defer wg.Done()
+			defer func() { <-sem }()
+			run0(name, patch, prop, expect)
+		}()
+	}
+	run0 = func(name, patch, prop, expect string) {
 		t0 := time.Now()
 		tmp, _ := os.MkdirTemp("", "govcself")
 		defer os.RemoveAll(tmp)
 		scratch := filepath.Join(tmp, "repo")
 		if out, err := exec.Command("cp", "-a", *repo, scratch).CombinedOutput(); err != nil {
 			fmt.Println("copy failed:", string(out))
+			mu.Lock()
 			bad++
+			mu.Unlock()
 			return
 		}
 		cmd := exec.Command("git", "apply", "--whitespace=nowarn", patch)
@@ -99,9 +116,11 @@ func cmdSelftest(args []string) int {
 			}
 		}
 		if err != nil {
+			mu.Lock()
 			fmt.Printf("%-40s patch does not apply: %s\n", name, strings.TrimSpace(string(out)))
 			results = append(results, result{Name: name, Property: prop, Expect: expect, Got: "patch-failed"})
 			bad++
+			mu.Unlock()
 			return
 		}
 		self, _ := os.Executable()
@@ -119,6 +138,8 @@ func cmdSelftest(args []string) int {
 			}
 		}
 		ok := got == expect
+		mu.Lock()
+		defer mu.Unlock()
 		if !ok {
 			bad++
 		}
@@ -157,6 +178,13 @@ func cmdSelftest(args []string) int {
 		}
 		run("seeded/"+filepath.Base(dir), f, meta.Property, meta.Expect)
 	}
+	wg.Wait()
+	sort.Slice(results, func(i, j int) bool {
+		if results[i].Name != results[j].Name {
+			return results[i].Name < results[j].Name
+		}
+		return results[i].Property < results[j].Property
+	})
 	b, _ := json.MarshalIndent(results, "", " ")
 	os.MkdirAll(filepath.Join(*verif, "selftest"), 0o755)
 	if *only == "" {
